@@ -17,6 +17,8 @@ func init() {
 	contextFunctions[symbols.NT_AbsoluteLocationPathOnly] = execAbsoluteLocationPathOnly
 	contextFunctions[symbols.NT_AbsoluteLocationPathWithRelative] = execAbsoluteLocationPathWithRelative
 	contextFunctions[symbols.NT_RelativeLocationPathWithStep] = leftRightDependentResult
+	contextFunctions[symbols.NT_PathExprFilterWithPath] = leftRightDependentResult
+	contextFunctions[symbols.NT_PathExprFilterWithAbbreviatedPath] = execAbbreviatedRelativeLocationPath
 	contextFunctions[symbols.NT_Step] = execStep
 	contextFunctions[symbols.NT_NodeTestAndPredicate] = leftRightDependentResult
 	contextFunctions[symbols.NT_Predicate] = execPredicate
